@@ -45,9 +45,39 @@ def origin(fn, local, depth=0, seen=None):
         return l
     outs = []
     for (_b, _i, rhs) in ds[:4]:
-        outs.append(rhs_origin(fn, rhs, depth + 1, seen))
+        o1 = rhs_origin(fn, rhs, depth + 1, seen)
+        if SITE_TAGS and _i == "term" and o1.startswith("call "):
+            # call-site tag (used by mirdec for variable identity): block + source names of the argument locals
+            blk = fn.blocks.get(_b)
+            names = []
+            if blk is not None:
+                for a_ in M._split_top(blk.args):
+                    mm = re.match(r"^(?:move |copy )?(_\d+)$", a_.strip())
+                    nm = ""
+                    if mm:
+                        nm = _debug_name(fn, mm.group(1))
+                    names.append(nm)
+            o1 += "\u27e8bb%d%s\u27e9" % (_b, (":" + ",".join(names)) if any(names) else "")
+        outs.append(o1)
     outs = sorted(set(outs))
     return outs[0] if len(outs) == 1 else "alt(" + " | ".join(outs) + ")"
+
+
+SITE_TAGS = False
+
+
+def _debug_name(fn, loc, depth=0):
+    """Source-level name of a local, following `x = copy/move y` and `x = &y` one or two steps."""
+    for k, v in fn.debug.items():
+        if v.strip() == loc:
+            return k
+    if depth < 3:
+        ds = fn.build_defs().get(loc) or []
+        if len(ds) == 1:
+            mm = re.match(r"^(?:copy |move |&mut |&)?\(?\*?(_\d+)\)?$", ds[0][2].strip())
+            if mm:
+                return _debug_name(fn, mm.group(1), depth + 1)
+    return ""
 
 
 def short_ty(t):
